@@ -50,7 +50,7 @@ pub fn exec(sc: &Scenario, st: &mut Stats) -> Option<Violation> {
     let kind = spec.kind;
     let window = spec.params.window(kind);
     let mut node = build_spec(&spec);
-    let mut shadow = build_spec(&spec);
+    let mut shadow = crate::sut::build_ref(&spec);
     let mut journal: Vec<J> = vec![];
     let mut disk: Vec<Generation> = vec![];
     let mut scale = Scale::new(spec.params.sum_periods(kind).max(window));
@@ -407,7 +407,7 @@ fn sweep_specs() -> Vec<NodeSpec> {
         };
         for m in modes {
             for &(a, b, c) in &tuples {
-                v.push(NodeSpec { kind: k, params: Params::new(a, b, c, 2.0), mode: m });
+                v.push(NodeSpec { kind: k, params: Params::new(a, b, c, 2.0), mode: m, dflt: false });
             }
         }
     }
